@@ -106,6 +106,6 @@ Definition check_app_case (c : app_case) : list N :=
   match init_chain (ac_genesis c) with
   | None => [ac_id c]
   | Some s0 =>
-      let '(s, rs) := run s0 (ac_calls c) in
+      let '(s, rs) := run enum_id s0 (ac_calls c) in
       if list_eqb response_eqb rs (ac_resps c) && proj_eqb (project s) (ac_final c) then [] else [ac_id c]
   end.
